@@ -49,10 +49,14 @@ Definition known_id (id : bytes) : list bool :=
   end.
 
 (** ** content directory: create_object with [cdir], cp of one file to [lp]
-    (a canonical benign logical path), commit *)
+    (a canonical benign logical path), commit.  Acceptance is [create_object_cdir]
+    (repo.rs:572-583); the commit of an accepted name still evaluates [cdir_collides]
+    (the version directory holds inventory.json and the sidecar of [alg]) - proved
+    false for every accepted name, kept so that the prediction follows the code and
+    not the theorem. *)
 Definition check_cdir (cdir alg lp : bytes) (pad : N)
     (new_ok cp_ok staged_ok commit_ok val_clean : bool) : list bool :=
-  if validate_content_dir cdir then
+  if create_object_cdir cdir then
     let cp := content_path (v1 pad) cdir lp in
     let m_cp_ok := fs_name_ok cdir in
     let m_staged := reads_back PContentDir cdir && implb' m_cp_ok (reads_back PContentPath cp) in
@@ -65,8 +69,7 @@ Definition check_cdir (cdir alg lp : bytes) (pad : N)
              (Bool.eqb val_clean (validator_reads_back PContentDir cdir && validator_reads_back PContentPath cp)) ]
   else [ negb new_ok ].
 Definition known_cdir (cdir alg lp : bytes) (pad : N) : list bool :=
-  [ c10_cdir_empty cdir; c10_cdir_collides_with_inventory cdir alg;
-    c10_validator_needs_json_escape PContentDir cdir ].
+  [ c10_validator_needs_json_escape PContentDir cdir ].
 
 (** ** logical path: cp of one file named [src] to [dst] in a fresh object *)
 Definition lp_fs_ok (lp : bytes) : bool := forallb fs_name_ok (split_slash lp []).
